@@ -22,6 +22,7 @@ import (
 var c05Advances = []time.Duration{1, time.Second, time.Minute, 14 * time.Minute, 15*time.Minute - 1, 15 * time.Minute, 15*time.Minute + 1, 15*time.Minute + time.Second, 16 * time.Minute, 31 * time.Minute, 40 * time.Minute}
 
 func TestC05NonceStore(t *testing.T) {
+	defer vt.Watch("TestC05NonceStore", 120*time.Second)()
 	rec := vt.For("C05")
 	rec.Rule("store level, virtual time, drivers memory / badger in-memory / badger on disk with close+reopen: rules submit(id in {a,b,c}, now+delta) with delta from {-15min-1ns,-15min,-15min+1ns,-1s,0,+1ns,+1s,+20min,+2h} or a range, advance(d<=40min incl. the 15-minute boundary +-1ns/1s), reopen, race(id,nonce,k copies in parallel goroutines); model: accept <=> nonce > last accepted for that id and nonce > now-15min (equality don't-care); racing duplicates: at most one accepted, exactly one when the model accepts; non-trivial = a replay/stale rejection after >=1 acceptance; distinct by driver + (op, delta class, verdict) sequence")
 	rapid.Check(t, func(rt *rapid.T) {
